@@ -1,4 +1,5 @@
 import HumphreyModel.Driver.Util
+import HumphreyModel.Driver.C01
 import HumphreyModel.Driver.C02
 import HumphreyModel.Driver.C05
 import HumphreyModel.Driver.C07
@@ -19,7 +20,7 @@ One `dispatch` per property lives in `HumphreyModel/Driver/Cxx.lean`.
 open Humphrey Humphrey.Driver
 
 def dispatchers : List (String → List String → String → Option Verdict) :=
-  [ C02.dispatch, C05.dispatch, C07.dispatch, C18a.dispatch, C17.dispatch, C16.dispatch, C10.dispatch, C15.dispatch, C08.dispatch, C13.dispatch ]
+  [ C01.dispatch, C02.dispatch, C05.dispatch, C07.dispatch, C18a.dispatch, C17.dispatch, C16.dispatch, C10.dispatch, C15.dispatch, C08.dispatch, C13.dispatch ]
 
 def dispatch (fn : String) (args : List String) (impl : String) : Verdict :=
   match dispatchers.findSome? (fun d => d fn args impl) with
